@@ -180,6 +180,8 @@ class C14(Lab):
         wpilib.DriverStation.refreshData()
         root, pkgname = write_package(case)
         sys.path.insert(0, root)
+        if case["pkg"] == "implicit" and case.get("clutter"):
+            sys.path.insert(0, root)  # the same directory twice on the path: still one package, one scan
         importlib.invalidate_caches()
         sel = None
         classes = {f"pkg:{case['pkg']}", "fms" if case["fms"] else "no-fms"}
@@ -358,7 +360,7 @@ class C14(Lab):
             classes.add(f"periods:{min(periods, 3)}")
             return {"nontrivial": bool(nt), "classes": sorted(classes)}
         finally:
-            if root in sys.path:
+            while root in sys.path:
                 sys.path.remove(root)
             shutil.rmtree(root, ignore_errors=True)
             for k in [k for k in sys.modules if k == pkgname or k.startswith(pkgname + ".")]:
